@@ -588,7 +588,12 @@ def determinism_selftest(binary, seed, nprog, nseeds):
             groups[j["_base"]].append(None)
             continue
         sim = r.get("sim") or {}
-        groups[j["_base"]].append(json.dumps([sim.get("sched_fp"), sim.get("map_fp"), sim.get("steps"), sim.get("tape_used"),
+        # The map-order fingerprint folds (site, tape value, size) in call order. Keys whose canonical descriptions
+        # tie (distinct *ssa.Const of equal value) keep their native relative order, and the loop bodies of such keys
+        # may iterate further maps, so with ties the *sequence* of map sites can differ between processes while the
+        # schedule, the number of draws and the verdict do not. It is therefore compared only in runs without ties.
+        mfp = sim.get("map_fp") if not sim.get("key_ties") else "ties"
+        groups[j["_base"]].append(json.dumps([sim.get("sched_fp"), mfp, sim.get("steps"), sim.get("tape_used"),
                                               r.get("flows"), r.get("escapes"), r.get("traces"), bool(r.get("err")),
                                               bool(r.get("panic"))], sort_keys=True))
     compared = mism = 0
